@@ -38,6 +38,8 @@ pub struct Geom {
     /// FAT32 BPB_ExtFlags (active FAT number, bit 7 = mirroring disabled); the library under test and
     /// the statement of C16 know nothing of it: all copies are kept identical regardless
     pub ext_flags: u16,
+    /// the MBR entry may be longer than the volume the boot sector describes
+    pub mbr_len_extra: u32,
     pub neighbours: bool,
     pub label: [u8; 11],
     /// randomise the end-of-chain value among the legal ones
@@ -99,7 +101,7 @@ impl Geom {
         self.part_start + 1
     }
     pub fn nblocks(&self) -> u32 {
-        self.part_end().saturating_add(if self.neighbours { 96 } else { 8 })
+        self.part_end().saturating_add(self.mbr_len_extra).saturating_add(if self.neighbours { 96 } else { 8 })
     }
     pub fn describe(&self) -> String {
         format!(
@@ -145,6 +147,7 @@ impl Geom {
             fsinfo: FsInfoInit::Correct,
             high_nibbles: false,
             ext_flags: 0,
+            mbr_len_extra: 0,
             neighbours: true,
             label: *b"           ",
             eoc_variants: false,
@@ -204,7 +207,13 @@ impl Geom {
             g.ext_flags = if rng.chance(1, 4) { *rng.pick(&[0x0080u16, 0x0081, 0x0001, 0x008F]) } else { 0 };
         }
         g.eoc_variants = rng.chance(1, 2);
+        g.mbr_len_extra = *rng.pick(&[0u32, 0, 0, 1, 8, 30]);
         g.neighbours = true;
+        // now and then the volume sits at the very end of the 32-bit block address space
+        if rng.chance(1, 10) {
+            // (room is left for a caller that adds FAT copies afterwards)
+            g.part_start = u32::MAX - 200 - rng.below(50) as u32 - g.part_len() - 3 * g.fat_size();
+        }
         g
     }
 }
@@ -380,10 +389,10 @@ impl Fmt {
             m[o + 8..o + 12].copy_from_slice(&start.to_le_bytes());
             m[o + 12..o + 16].copy_from_slice(&len.to_le_bytes());
         };
-        put(&mut m, g.part_slot, if self.rng.chance(1, 2) { 0x80 } else { 0x00 }, g.part_type, g.part_start, g.part_len());
+        put(&mut m, g.part_slot, if self.rng.chance(1, 2) { 0x80 } else { 0x00 }, g.part_type, g.part_start, g.part_len() + g.mbr_len_extra);
         if g.neighbours && fresh {
             // a foreign partition behind ours, and one in front when there is room
-            let mut others: Vec<(u8, u32, u32)> = vec![(0x83, g.part_end(), 64)];
+            let mut others: Vec<(u8, u32, u32)> = vec![(0x83, g.part_end() + g.mbr_len_extra, 64)];
             if g.part_start > 40 {
                 others.push((0x07, 8, 24));
             }
